@@ -204,13 +204,22 @@ extern int mpt_connection_dispatch(MPT_STRUCT(connection) *con, MPT_TYPE(event_h
 		mpt_outdata_reply(&con->out, slen, buf + 1, 0);
 		return MPT_ERROR(BadValue);
 	}
+	data = (void *) (buf + 1);
 	/* discard existing message */
 	if (!cmd) {
+		uint8_t i;
 		buf->_used = 0;
-		mpt_outdata_reply(&con->out, hlen, buf + 1, 0);
+		/* answer requests only, id marked as reply */
+		for (i = 0; i < ilen && !(data[0] & 0x80); ++i) {
+			if (!data[i]) {
+				continue;
+			}
+			data[0] |= 0x80;
+			mpt_outdata_reply(&con->out, hlen, data, 0);
+			break;
+		}
 		return 0;
 	}
-	data = (void *) (buf + 1);
 	/* no message id */
 	if (!ilen) {
 		MPT_STRUCT(message) msg = MPT_MESSAGE_INIT;
